@@ -323,10 +323,36 @@ async def run_tee(case, out):
         for c in plan:
             if not its:
                 break
-            doomed = c >= 100
+            code = c // 100
+            doomed = code == 1
             c %= 100
             c %= len(its)
+            if code == 3:
+                # fork consumer c at its present position: the clone must see exactly what c still has ahead
+                if len(its) < 8:
+                    try:
+                        (clone,) = ait.tee(its[c], 1)
+                    except Exception as e:  # noqa: BLE001
+                        out.bad("tee-fork-refused", type(e).__name__, f"{case}")
+                        return
+                    its.append(clone)
+                    got.append(list(got[c]))
+                    done.append(done[c])
+                    if "tee-fork-later" not in out.labels:
+                        out.labels.append("tee-fork-later")
+                continue
             if done[c]:
+                continue
+            if code == 2:
+                # the scope is cancelled from a loop callback while the pull is under way (in the lock's shielded
+                # checkpoint or inside the source's __anext__); the consumer carries on afterwards
+                cancelled_pulls[0] += 1
+                with anyio.CancelScope() as sc:
+                    asyncio.get_running_loop().call_soon(sc.cancel)
+                    try:
+                        got[c].append(await its[c].__anext__())
+                    except StopAsyncIteration:
+                        done[c] = True
                 continue
             if doomed:
                 # a pull inside an already cancelled scope: it either raises (then nothing may have been consumed)
@@ -691,7 +717,7 @@ def _gen1(g, force=None, closable=False):
     if fn == "tee":
         n = g.choice([-1, 0, 1, 2, 2, 3, 3, 4])
         mode = g.choice(["plan", "tasks", "tasks"])
-        plan = [g.int(0, 8) + (100 if g.chance(12) else 0) for _ in range(g.int(0, 24))]
+        plan = [g.int(0, 8) + g.weighted([(76, 0), (8, 100), (8, 200), (8, 300)]) for _ in range(g.int(0, 24))]
         p = {"n": n, "plan": plan, "mode": mode, "yields": g.int(0, 3)}
         if g.chance(30):
             p["fork"] = [g.int(0, 3), g.int(1, 3)]
